@@ -6,6 +6,7 @@ mod igs;
 mod layers;
 mod load;
 mod opt;
+mod rip;
 mod sauce;
 mod sixel;
 mod small;
@@ -43,6 +44,7 @@ fn main() {
         "c19" => small::c19(&a),
         "c20" => gfx::c20(&a),
         "igs" => igs::igs(&a),
+        "rip" => rip::rip(&a),
         other => {
             eprintln!("unknown driver {other}");
             std::process::exit(2);
